@@ -6,7 +6,8 @@
 //
 //	consumer: i = Finish at once, r = retain everything (never Finish), k<N> = Finish N items late,
 //	          s<N> = Finish at once but sleep N ms before every receive
-//	script:   comma separated: d<hex> = a Read returns these bytes, p = the reader sleeps 40 ms first,
+//	script:   comma separated: d<hex> = a Read returns these bytes, p = silence: after a lone ESC the reader waits for
+//	          the Escape report of the timer callback (yield point; was a 40 ms sleep) before the next read returns,
 //	          c = Close() is called (from inside Read, i.e. while the parser is blocked in it),
 //	          last element E (io.EOF) or R (another error)
 //	flags:    closed (channel closed after the last item), wc (WaitClose returned),
@@ -32,8 +33,6 @@ import (
 	"verifharness/gen"
 	"verifharness/hx"
 )
-
-const pauseDur = 40 * time.Millisecond
 
 type ev struct {
 	kind byte // 'd', 'p', 'c'
@@ -110,11 +109,79 @@ func parseScript(str string) (script, bool) {
 var errBroken = errors.New("verif: reader failed")
 
 type scriptReader struct {
-	s      script
-	i      int
-	p      *ansi.Parser
-	ready  chan struct{} // closed when p is set
-	closed int
+	s       script
+	i       int
+	p       *ansi.Parser
+	ready   chan struct{} // closed when p is set
+	closed  int
+	lastEsc bool     // the last byte handed to the parser was ESC
+	cb      *cbCount // Escape reports of this parser's timer callbacks (yield point 33 of the verification build)
+	late    bool     // a report took longer than lateAfter (failure time-out; the case is re-run before it counts)
+}
+
+// the disambiguation delay is 10 ms: a report that is later than this on every one of four tries is a failure
+const lateAfter = 60 * time.Millisecond
+
+// Round 4: a pause after a lone ESC is no longer a sleep of 40 ms (elapsed time deciding whether the 10 ms
+// timer has fired — under a load of 40 its callback was sometimes later than that) but a wait for the
+// callback itself: the reader returns from the pause when the callback of this parser has emitted its
+// report (yield point 33, still holding the mutex: nothing that follows can overtake it).  The second is a
+// failure time-out only: a report that never comes shows as a missing `C:1b` item.  A pause that does not
+// follow an ESC has nothing to wait for (no timer is pending).
+type cbCount struct {
+	mu       sync.Mutex
+	reported int
+	ch       chan struct{}
+}
+
+var cbCounts sync.Map // *ansi.Parser → *cbCount
+
+func installSchedHook() {
+	ansi.VerifSchedHook = func(p *ansi.Parser, point int, pv any) {
+		if pv != nil {
+			panic(pv) // point 39 recovered a panic of the callback for us: not wanted here, let it take the process down as without the hook
+		}
+		if point != 33 {
+			return
+		}
+		if v, ok := cbCounts.Load(p); ok {
+			c := v.(*cbCount)
+			c.mu.Lock()
+			c.reported++
+			c.mu.Unlock()
+			select {
+			case c.ch <- struct{}{}:
+			default:
+			}
+		}
+	}
+}
+
+func (r *scriptReader) pause() {
+	if !r.lastEsc || r.cb == nil {
+		return
+	}
+	r.cb.mu.Lock()
+	want := r.cb.reported + 1
+	r.cb.mu.Unlock()
+	t0 := time.Now()
+	deadline := time.After(time.Second)
+	for {
+		r.cb.mu.Lock()
+		n := r.cb.reported
+		r.cb.mu.Unlock()
+		if n >= want {
+			if time.Since(t0) > lateAfter {
+				r.late = true
+			}
+			return
+		}
+		select {
+		case <-r.cb.ch:
+		case <-deadline:
+			return
+		}
+	}
 }
 
 func (r *scriptReader) Read(b []byte) (int, error) {
@@ -124,7 +191,8 @@ func (r *scriptReader) Read(b []byte) (int, error) {
 		r.i++
 		switch e.kind {
 		case 'p':
-			time.Sleep(pauseDur)
+			r.pause()
+			r.lastEsc = false
 		case 'c':
 			if r.closed == 0 { // Close() blocks on a second call (channel of capacity 1)
 				r.p.Close()
@@ -136,6 +204,9 @@ func (r *scriptReader) Read(b []byte) (int, error) {
 			releaseHeld()
 		case 'd':
 			n := copy(b, e.data)
+			if n > 0 {
+				r.lastEsc = e.data[n-1] == 0x1b
+			}
 			return n, nil
 		}
 	}
@@ -306,9 +377,11 @@ type held struct {
 
 // runOnce runs the script; consumer = "i", "r" or "k<N>".
 func runOnce(s script, consumer string) string {
-	rd := &scriptReader{s: s, ready: make(chan struct{})}
+	rd := &scriptReader{s: s, ready: make(chan struct{}), cb: &cbCount{ch: make(chan struct{}, 1)}}
 	p := ansi.NewParser(rd)
 	rd.p = p
+	cbCounts.Store(p, rd.cb)
+	defer cbCounts.Delete(p)
 	close(rd.ready)
 	lag := -1                // -1: finish at once; 0: never; n>0: finish n items late
 	slow := time.Duration(0) // s<N>: sleep N ms before every receive (the parser and its timer callback block in emit)
@@ -378,6 +451,9 @@ loop:
 			flags = append(flags, "wc-hang")
 		}
 	}
+	if rd.late {
+		flags = append(flags, "timer-late")
+	}
 	if bad == 0 {
 		flags = append(flags, "immut-ok")
 	} else {
@@ -386,7 +462,7 @@ loop:
 	return strings.Join(toks, " ") + " | " + strings.Join(flags, " ")
 }
 
-var retries int64
+var retries, lateRetries int64
 var mu sync.Mutex
 
 // wantEsc = number of Escape-key reports the script calls for: ESC as the last byte before a pause.
@@ -425,6 +501,12 @@ func run(s script, consumer string) string {
 		// (round 4: fewer reports than scripted are re-run too — under a load of 40 the callback goroutine of a
 		// lone ESC can be held up for more than the 30 ms that separate the timer from the next read; a parser
 		// that really loses the report loses it on every try)
+		if strings.Contains(res, " timer-late") && try < 3 {
+			mu.Lock()
+			lateRetries++
+			mu.Unlock()
+			continue // failure time-out of a pause: only counts when it recurs on four tries
+		}
 		if n := strings.Count(" "+res+" ", " C:1b "); s.has('c') || n == wantEsc(s) || (n < wantEsc(s) && try >= 3) {
 			return res
 		}
@@ -473,6 +555,7 @@ func childMain(arg string) {
 		os.Exit(3)
 	}
 	installHook()
+	installSchedHook()
 	fmt.Println(runOnce(s, f[0]))
 	time.Sleep(20 * time.Millisecond) // let a released callback crash us, if it is going to
 }
@@ -610,6 +693,7 @@ func main() {
 		childMain(arg)
 		return
 	}
+	installSchedHook()
 	hx.Main("C08", runC08)
 }
 
@@ -823,5 +907,6 @@ func runC08(r *hx.Run) error {
 	}
 	emit(r, hooked, 1)
 	r.Add("prompt-retries", int(retries))
+	r.Add("late-report-retries", int(lateRetries))
 	return nil
 }
